@@ -121,6 +121,24 @@ pub fn run(cfg: &Cfg, rep: &mut Report) {
             t.push_str(s);
             hays.push(t);
         }
+        // near misses: s with one character replaced by something an implementation shortcut could
+        // confuse it with (NUL / DEL padding, bit 5, the low byte of its code point, its neighbours)
+        for j in 0..sc.len().min(3) {
+            let c = sc[if j == 2 { sc.len() - 1 } else { j }] as u32;
+            let pos = if j == 2 { sc.len() - 1 } else { j };
+            for alt in [0u32, 0x7F, c ^ 0x20, c & 0xFF, c & 0x7F, c + 1, c.wrapping_sub(1), c ^ 0x10000] {
+                let Some(a) = char::from_u32(alt) else { continue };
+                if a as u32 == c {
+                    continue;
+                }
+                let mut t = String::from("x");
+                for (k, &ch) in sc.iter().enumerate() {
+                    t.push(if k == pos { a } else { ch });
+                }
+                t.push('x');
+                hays.push(t);
+            }
+        }
         hays.push(String::new());
         hays.push(s.repeat(2));
         for fl in &all_flags {
@@ -167,6 +185,64 @@ pub fn run(cfg: &Cfg, rep: &mut Report) {
         }
         if rep.samples.len() < rep.max_samples && si % 1013 == 7 {
             rep.sample(J::obj().set("s", s.as_str()).set("escaped", esc.as_str()).set("haystacks", hays.len()).set("flag_sets", 24));
+        }
+    }
+    // ---- every case-related code point as a one-character string, searched in a haystack that
+    // holds its whole neighbourhood in both relations (one wrong table entry must not hide)
+    let cd = case_data();
+    let mut related: Vec<u32> = cd.nontrivial(true).iter().chain(cd.nontrivial(false).iter()).collect();
+    related.sort_unstable();
+    related.dedup();
+    for &c in &related {
+        if !cfg.mine(c as u64 ^ 0x18) {
+            continue;
+        }
+        let Some(ch) = char::from_u32(c) else { continue };
+        if c % 256 == 0 || rep.get("case_related_single_character_strings") == 0 {
+            rep.begin(10_000_000 + c as u64, &J::obj().set("s", ch.to_string()));
+        }
+        rep.inc("case_related_single_character_strings");
+        let s = ch.to_string();
+        let esc = regress::escape(&s);
+        let mut hood: Vec<u32> = cd.class_of(c, true);
+        hood.extend(cd.class_of(c, false));
+        hood.extend(crate::gen::partners(c));
+        hood.sort_unstable();
+        hood.dedup();
+        let mut t = String::from("-");
+        for &x in &hood {
+            if let Some(xc) = char::from_u32(x) {
+                t.push(xc);
+                t.push('-');
+            }
+        }
+        for fs in ["", "i", "iu", "iv", "u"] {
+            let fl = Flags::from_str(fs);
+            let case = || J::obj().set("s", s.as_str()).set("escaped", esc.as_str()).set("flags", fs).set("haystack", t.as_str()).set("check", "c18");
+            let re = match engine::compile(&engine::to_cps(&esc), fl, false) {
+                Guarded::Ok(Ok(re)) => re,
+                other => {
+                    rep.inc("evaluations");
+                    rep.violation(violation("C18", "escape(s) does not compile", case(), other.describe_short(), "Ok".into()));
+                    continue;
+                }
+            };
+            let got = match engine::find_all(&re, &t, 0, engine::Api::Utf8, FUEL) {
+                Guarded::Ok(v) => v.iter().map(|m| m.range).collect::<Vec<_>>(),
+                _ => {
+                    rep.inconclusive("fuel");
+                    continue;
+                }
+            };
+            let unicode = fl.unicode_mode();
+            let expected = if fl.i { occurrences(&[ch], &t, &|a, b| cd.equivalent(a as u32, b as u32, unicode)) } else { occurrences(&[ch], &t, &|a, b| a == b) };
+            rep.eval(fnv64(format!("single|{}|{}", c, fs).as_bytes()), true);
+            if fl.i {
+                rep.inc("case_insensitive_cases");
+            }
+            if got != expected {
+                rep.violation(violation("C18", "matches of escape(s) differ from the occurrences of the literal s", case(), format!("{:?}", got), format!("{:?}", expected)));
+            }
         }
     }
 }
